@@ -7,7 +7,7 @@ ENTRY = {
             "runs = multi-pass merge; join build side and aggregation input spilled); strata in rotation: sort_clean (merge-supported key types, NULL placement the merge implements, "
             "no fused LIMIT), sort_offset (LIMIT + OFFSET: LimitExec over the external sort), sort_f1 (fused LIMIT), sort_f2 (other NULL placement over nullable keys, with its "
             "neutraliser run), sort_f3 (BOOLEAN key, with its neutraliser run), join_inner (int/double/string keys), join_outer (LEFT/RIGHT/FULL: the spill path must fail explicitly), "
-            "join_f5 (DATE/BOOLEAN key), agg (GROUP BY 1-2 keys, COUNT/SUM/MIN/MAX); every ordered statement carries the unique id as last key (total order). "
+            "join_f5 (DATE/BOOLEAN key), agg (GROUP BY 1-2 NULL-free keys, COUNT/SUM/MIN/MAX), agg_nullkeys (keys holding NULLs, with its neutraliser run WHERE keys IS NOT NULL); every ordered statement carries the unique id as last key (total order). "
             "non-trivial: non-empty unlimited answer and at least one limited run that returned the same answer; thorough tier adds inputs of 20 000+ rows (runs longer than the "
             "8192-row merge buffer: finding C08-F4); distinct by sha256 of the canonical case",
     "trusted_base": COMMON_TB + [
@@ -30,7 +30,7 @@ ENTRY = {
                 "per-key NULLS FIRST/LAST is such a preorder (C08_external_sort, C08_external_sort_comparator, C25_spilled); for ANY hash function, partition-wise inner join and partition-wise "
                 "GROUP BY concatenated equal the unpartitioned operators as bags (C08_grace_join, C08_spilled_agg); the spilled join returns that answer or an explicit error (C08_either). "
                 "The unchanged tree violates the property on the spilled sort path (findings C08-F1 fetch ignored, C08-F2 NULL placement in the merge, C08-F3 boolean keys compare equal, "
-                "C08-F4 merge-buffer reuse for runs longer than 8192 rows, C08-F5 DATE/BOOLEAN join keys dropped): each has a kernel-checked model witness, a witness replayed on the real code on "
+                "C08-F4 merge-buffer reuse for runs longer than 8192 rows, C08-F5 DATE/BOOLEAN join keys dropped, C08-F6 NULL group keys grouped differently by the aggregation path the limit selects): each has a kernel-checked model witness, a witness replayed on the real code on "
                 "every run, and exact-mirror or signature+neutraliser attribution; all other strata must pass.",
         "design_ref": "DESIGN.md §6 C08",
         "level_note": "Trusted: Lean kernel; axioms propext/Classical.choice/Quot.sound; the hand-written model of the spill paths (validated by correspondence only; the exact run boundaries and "
